@@ -39,7 +39,12 @@ func c10Run(in []string) []string {
 	var obs []string
 	forks := map[[2]uint32]int{}
 	for _, ev := range s.Evs {
-		e := refh.EventOf(s, ev, ids, 1)
+		if ev.Ep != inst.Epoch() {
+			// not an event of the current epoch (does not happen in creation order)
+			obs = append(obs, "skip")
+			continue
+		}
+		e := refh.EventOf(s, ev, ids, ev.Ep)
 		if e == nil || ev.Cr >= len(s.VIDs) {
 			obs = append(obs, "b0:p2")
 			continue
@@ -66,6 +71,7 @@ func c10Run(in []string) []string {
 	}
 	vu.StatN("events", len(s.Evs))
 	vu.StatN("blocks", len(inst.Blocks))
+	vu.StatN("epochs_sealed", int(inst.Epoch())-1)
 	for _, b := range inst.Blocks {
 		if len(b.Cheaters) > 0 {
 			vu.Stat("block_with_cheaters")
